@@ -9,6 +9,8 @@ RULE = ('generated packages x random sequences (length 4-16) of attribute reads 
         'comments / text / runs / records / images / core properties), with in-place mutation of every string-level value returned before the '
         'next read; the same sequence through str path, PathLike and BytesIO inputs (the buffer also left at an arbitrary position, or read by another instance before) and on separate instances; per read: equal to the value of a '
         'fresh object and to the value of the Lean model; list numbering stable under re-reading; input file and buffer bytes unchanged; '
+        'histories over SEVERAL documents: other documents (also with renamed namespace prefixes) read by separate instances in between, and a new '
+        'process that reads a renamed-prefix document first: a fresh object over the sentinel document returns what it returned first; '
         'non-trivial = sequence re-reads some attribute after a mutation; distinct by hash of (archive, sequence)')
 STRING_LEVEL = [v + s for v in life.VIEWS for s in ('', '_runs')] + ['text', 'html_map', 'images', 'core_properties', 'comments']
 
